@@ -149,14 +149,30 @@ class LogFormatter(logging.Formatter):
         """
         record = self.color_code(record)
         parts = record.split("|")
-        json_part = parts.pop()
 
-        try:
-            dirty_record = json.loads(json_part.encode("UTF8"))
+        # The message is the last field of the record, but a JSON message can itself
+        # contain the field separator: the message is the longest run of trailing
+        # fields which parses as a JSON object.
+        dirty_record = None
+        for index in range(len(parts)):
+            if not parts[index].lstrip(" \t\r\n\ufeff").startswith("{"):
+                # cannot be the start of a JSON object, don't pay for joining and parsing
+                continue
+            try:
+                candidate = json.loads("|".join(parts[index:]).encode("UTF8"))
+            except ValueError:
+                continue
+            if isinstance(candidate, dict):
+                dirty_record = candidate
+                parts = parts[:index]
+                break
+
+        if dirty_record is not None:
             clean_record = self.clean_record(dirty_record)
             parts.append(" " + json.dumps(clean_record))
 
-        except ValueError:
+        else:
+            json_part = parts.pop()
             json_part = re.sub(r"`([^`]*)`", r"`\001YELLOWm\1\001OFFm`", f"{json_part}")
             json_part = re.sub(r"'([^']*)'", r"'\001YELLOWm\1\001OFFm'", f"{json_part}")
             json_part = re.sub(r'"([^"]*)"', r"'\001YELLOWm\1\001OFFm'", f"{json_part}")
